@@ -134,7 +134,7 @@ def components(fl, engine):
 
 def run(ctx):
     fl = import_library()
-    nengines = ctx.scale(60, 1000)
+    nengines = ctx.scale(60, 4000)
     ctx.rule = (
         f"every PythonExporter.to_string call observed. Workload: {nengines} generated engines (as in C14, with arbitrary finite double parameters, +-inf and "
         "NaN values, quotes and backslashes in descriptions; rule weights on the decimals grid) and their components x alias settings {'fl', '', '*', "
